@@ -90,9 +90,25 @@ Fixpoint group_runs (l : list (pv * pv)) : list (pv * list pv) :=      (* (key, 
       end
   end.
 
-(* ------------------------------------------------------------------ objects with attributes *)
+(* ------------------------------------------------------------------ objects with attributes (tuples of their fields) *)
 (* the compiled query as far as the translated statements read it: query.table, query.distinct, query.limit *)
 Definition query_obj (table distinct limit : pv) : pv := PTuple [table; distinct; limit].
+
+(* set(l): the distinct (==) members in first-occurrence order.  CPython iterates a set in hash order; every use in the
+   translated statements sorts the set by a key order whose ties are exactly ==, so the order does not matter. *)
+Fixpoint nub_pv (seen : list pv) (l : list pv) : list pv :=
+  match l with
+  | [] => []
+  | x :: t => if existsb (pv_eqb x) seen then nub_pv seen t else x :: nub_pv (seen ++ [x]) t
+  end.
+
+(* an f-string is not interpreted: the record of its parts (two names are equal iff their parts are) *)
+Definition fstring_obj (parts : list pv) : pv := PList (PV (VStr [102; 39]) :: parts).
+
+(* objects with two fields: EvalPivot(query, pivots) and Column(name, datatype) *)
+Definition pivot_obj (q pivots : pv) : pv := PTuple [q; pivots].
+Definition column_obj (name datatype : pv) : pv := PTuple [name; datatype].
+Definition RuntimeError : Z := 10.
 
 Fixpoint find_index (x : pv) (l : list pv) : option nat :=
   match l with
@@ -102,7 +118,51 @@ Fixpoint find_index (x : pv) (l : list pv) : option nat :=
 
 (* ------------------------------------------------------------------ first-order primitives *)
 Definition prims_base (name : string) (args : list pv) : res pv :=
-  if String.eqb name "builtins.set" then match args with [] => Ok (PList []) | _ => Stuck end
+  if String.eqb name "builtins.set" then
+    match args with
+    | [] => Ok (PList [])
+    | [v] => match seq_items v with Some l => Ok (PList (nub_pv [] l)) | None => Stuck end
+    | _ => Stuck
+    end
+  else if String.eqb name "sorted_by" then          (* sorted(xs, key=f), given the list of f's values on xs *)
+    match args with
+    | [PList xs; PList keys] =>
+        match map_opt key_values keys with
+        | Some ks => if Nat.eqb (length ks) (length xs)
+                     then Ok (PList (map snd (py_sort (on fst tuple_le) false (combine ks xs)))) else Stuck
+        | None => Stuck
+        end
+    | _ => Stuck
+    end
+  else if String.eqb name "builtins.range" then
+    match args with [PV (VInt n)] => Ok (PList (map (fun i => PInt (Z.of_nat i)) (seq 0 (Z.to_nat n)))) | _ => Stuck end
+  else if String.eqb name "itertools.product" then
+    match args with
+    | [a; b] => match seq_items a, seq_items b with
+                | Some x, Some y => Ok (PList (flat_map (fun u => map (fun v => PTuple [u; v]) y) x))
+                | _, _ => Stuck
+                end
+    | _ => Stuck
+    end
+  else if String.eqb name "builtins.zip" then
+    match args with
+    | [a; b] => match seq_items a, seq_items b with
+                | Some x, Some y => Ok (PList (map (fun p => PTuple [fst p; snd p]) (combine x y)))
+                | _, _ => Stuck
+                end
+    | _ => Stuck
+    end
+  else if String.eqb name "fstring" then Ok (fstring_obj args)
+  else if String.eqb name "attr:query" then match args with [PTuple [q; _]] => Ok q | _ => Stuck end
+  else if String.eqb name "attr:pivots" then match args with [PTuple [_; p]] => Ok p | _ => Stuck end
+  else if String.eqb name "attr:name" then match args with [PTuple [n; _]] => Ok n | _ => Stuck end
+  else if String.eqb name "attr:datatype" then match args with [PTuple [_; d]] => Ok d | _ => Stuck end
+  (* the class of an object is recognised by its number of fields: EvalQuery is query_obj, EvalPivot is pivot_obj *)
+  else if String.eqb name "isinstance:beanquery.query_compile.EvalQuery" then
+    match args with [PTuple [_; _; _]] => Ok (PBool true) | [_] => Ok (PBool false) | _ => Stuck end
+  else if String.eqb name "isinstance:beanquery.query_compile.EvalPivot" then
+    match args with [PTuple [_; _]] => Ok (PBool true) | [_] => Ok (PBool false) | _ => Stuck end
+  else if String.eqb name "raise:builtins.RuntimeError" then Exc RuntimeError
   else if String.eqb name "builtins.tuple" then
     match args with [v] => match seq_items v with Some l => Ok (PTuple l) | None => Stuck end | _ => Stuck end
   else if String.eqb name "builtins.list" then
